@@ -18,7 +18,10 @@ LineAlphabet == { B("10 X = 1"), B("10"), B("10 PRINT 1 +"), B("10 PRINT \""), B
                   B("30 ") \o <<195, 169>>, B("30 A = 1.2.3"), B("20 GOTO 99"),
                   B("40 PRINT \"") \o <<195, 169>> \o B("\" + 1"), B("50 REM ") \o <<195, 169>>,
                   B("15 FOR I = 1 TO 2: NEXT I") \o <<CR>>, B("20 DEF F(X) = X: PRINT F(Y)"), B("60 A$ = 1"), B("  70 END"),
-                  B("20 Y = A$ = B$") }
+                  B("20 Y = A$ = B$"),
+                  \* indented lines whose diagnostic or token ends on a multi-byte character
+                  B(" 30 ") \o <<195, 169>>, <<9>> \o B("50 REM ") \o <<195, 169>>,
+                  B(" 40 PRINT \"") \o <<226, 130, 172>> \o B("\" + 1") }
 
 VARIABLES file
 vars == <<file>>
